@@ -165,7 +165,7 @@ REAL = {
     "client.get_room_event": ([ROOM, EVENT], None, None),
     "client.get_message_events": ([ROOM], lambda r: [("dir", r.choice(["b", "f"]))] + ([("from", STR(r))] if r.random() < 0.6 else []) +
                                   ([("to", STR(r))] if r.random() < 0.3 else []) + ([("limit", str(r.randint(1, 100)))] if r.random() < 0.5 else []), None),
-    "client.get_content": ([SERVER, MEDIA], lambda r: [("timeout_ms", str(r.randint(1, 99999)))] if r.random() < 0.5 else [], None),
+    "client.get_content": ([SERVER, MEDIA], lambda r: [("timeout_ms", str(r.choice([1, 19999, 20000, 20001, 20500, 20999, 21000, r.randint(1, 99999)])))] if r.random() < 0.7 else [], None),   # around the 20 s default
     "client.send_event_to_device": ([EVTYPE, STR], None, lambda r: {"messages": {"@alice:x.org": {"DEV": {"a": 1}}}}),
     "client.whoami": ([], None, None),
     "client.get_tags": ([USER, ROOM], None, None),
